@@ -287,22 +287,28 @@ def make_alphabet(fam, mode_by_depth):
 
 CAMPAIGNS = {
     "quick": [
-        {"world": "W1", "schedules": ("dev", 1, ["UsagePattern", "Job", "UsageJourneyStep"]), "depth": 1,
-         "modes": {1: "full"}},
-        {"world": "W2", "schedules": ("rev", 0), "depth": 1, "modes": {1: "full"}},
-        {"world": "W3", "schedules": ("rev", 0), "depth": 1, "modes": {1: "full"}},
+        {"world": "W1", "schedules": ("rev", 0), "depth": 1, "modes": {1: "full"}},
+        {"world": "W1", "schedules": ("dev", 1, ["UsagePattern", "Job"]), "depth": 1, "modes": {1: "core"}},
+        {"world": "W2", "schedules": ("default", 0), "depth": 1, "modes": {1: "full"}},
+        {"world": "W2", "schedules": ("rev", 0), "depth": 1, "modes": {1: "core"}},
+        {"world": "W3", "schedules": ("default", 0), "depth": 1, "modes": {1: "full"}},
         {"world": "W2", "schedules": ("default", 0), "depth": 2, "modes": {1: "dep2", 2: "dep2"}},
-        {"world": "W3", "schedules": ("default", 0), "depth": 2, "modes": {1: "dep2", 2: "dep2"}, "max": 900},
+        {"world": "W3", "schedules": ("default", 0), "depth": 2, "modes": {1: "dep2", 2: "dep2"}, "max": 400},
     ],
     "thorough": [
         {"world": "W1", "schedules": ("dev", 2), "depth": 1, "modes": {1: "full"}},
         {"world": "W2", "schedules": ("dev", 2), "depth": 1, "modes": {1: "full"}},
         {"world": "W3", "schedules": ("dev", 1), "depth": 1, "modes": {1: "full"}},
-        {"world": "W1", "schedules": ("rev", 0), "depth": 2, "modes": {1: "full", 2: "full"}},
-        {"world": "W2", "schedules": ("rev", 0), "depth": 2, "modes": {1: "full", 2: "full"}},
-        {"world": "W3", "schedules": ("rev", 0), "depth": 2, "modes": {1: "full", 2: "full"}},
-        {"world": "W3", "schedules": ("default", 0), "depth": 3, "modes": {1: "core", 2: "core", 3: "core"}, "max": 60000},
-        {"world": "W3", "schedules": ("default", 0), "depth": 2, "modes": {1: "core", 2: "core"}, "merge": False},
+        {"world": "W1c", "schedules": ("dev", 1), "depth": 1, "modes": {1: "full"}},
+        {"world": "W1", "schedules": ("rev", 0), "depth": 1, "modes": {1: "pairs"}},
+        {"world": "W2", "schedules": ("rev", 0), "depth": 1, "modes": {1: "pairs"}},
+        {"world": "W3", "schedules": ("default", 0), "depth": 1, "modes": {1: "pairs"}},
+        {"world": "W1", "schedules": ("rev", 0), "depth": 2, "modes": {1: "core", 2: "core"}},
+        {"world": "W2", "schedules": ("rev", 0), "depth": 2, "modes": {1: "core", 2: "core"}},
+        {"world": "W3", "schedules": ("default", 0), "depth": 2, "modes": {1: "core", 2: "core"}, "max": 12000},
+        {"world": "W1", "schedules": ("default", 0), "depth": 3, "modes": {1: "dep2", 2: "dep2", 3: "dep2"}},
+        {"world": "W2", "schedules": ("default", 0), "depth": 3, "modes": {1: "dep2", 2: "dep2", 3: "dep2"}},
+        {"world": "W2", "schedules": ("default", 0), "depth": 2, "modes": {1: "dep2", 2: "dep2"}, "merge": False},
     ],
 }
 
